@@ -290,7 +290,8 @@ def check(pid, prop, tier, seed, n, scratch, t0, only_index):
             broken.append("translator: " + msg[-1500:])
 
     # 2. proofs
-    rc, out = make_targets(["props/%s.vo" % pid, "corr/%s.vo" % prop["corr"]])
+    extra_targets = list(prop.get("extra_targets", [])) + ["corr/%s.vo" % x["corr"] for x in prop.get("extra_runs", [])]
+    rc, out = make_targets(["props/%s.vo" % pid, "corr/%s.vo" % prop["corr"]] + extra_targets)
     proofs_ok = rc == 0
     if not proofs_ok:
         m = re.search(r'File "\./([^"]+)", line (\d+)', out)
@@ -319,7 +320,12 @@ def check(pid, prop, tier, seed, n, scratch, t0, only_index):
             extra = [a for a in axioms if a not in ALLOWED_AXIOMS]
             if rc != 0 or extra:
                 broken.append("Print Assumptions: %d of %d theorems closed; axioms: %s" % (closed, n_thm, extra[:5]))
-    obligations = count_obligations(cone(props_v))
+    cone_files = set(cone(props_v))
+    for t in prop.get("extra_targets", []):
+        tv = os.path.join(COQ, t[:-1]) if t.endswith(".vo") else os.path.join(COQ, t)
+        if os.path.exists(tv):
+            cone_files |= set(cone(tv))
+    obligations = count_obligations(sorted(cone_files))
     coqchk_txt = ""
     if tier == "thorough" and proofs_ok:
         # independent re-check of the compiled theorem file and everything it depends on
@@ -367,6 +373,43 @@ def check(pid, prop, tier, seed, n, scratch, t0, only_index):
                 pairs, classes = [], []
             cases = load_cases(outdir)
             total_eval = len(cases)
+
+    # additional (driver, Corr module) pairs registered for this property, e.g. the integration model
+    for xi, x in enumerate(prop.get("extra_runs", [])):
+        xprop = dict(prop, driver=x["driver"], corr=x["corr"], driver_args=x.get("driver_args", []), shard=x.get("shard", prop.get("shard", 1000)))
+        okx, outx, binx = build_driver(xprop, scratch)
+        if not okx:
+            broken.append("correspondence harness %s no longer builds against /repo" % x["driver"])
+            notes.append(outx[-3000:])
+            continue
+        nx = x.get("thorough_n", 0) if tier == "thorough" else x.get("quick_n", 0)
+        outdirx = os.path.join(scratch, "xrun%d" % xi)
+        rcx, outx = run_driver(binx, xprop, seed, nx, tier, outdirx)
+        if rcx == 3:
+            shutil.rmtree(outdirx, ignore_errors=True)
+            rcx, outx = run_driver(binx, xprop, seed, nx, tier, outdirx)
+            if rcx == 3:
+                print("HARNESS-ERROR property=%s: %s" % (pid, outx[-400:].replace("\n", " ")))
+                return 2
+        if rcx != 0:
+            broken.append("driver %s failed (exit %d)" % (x["driver"], rcx))
+            notes.append(outx[-3000:])
+            continue
+        px, kx, errx = evaluate(outdirx)
+        if px is None:
+            if "Error" not in errx:
+                print("HARNESS-ERROR property=%s: coqc could not evaluate a shard (killed?): %s" % (pid, errx[:300]))
+                return 2
+            broken.append("coqc could not evaluate the shards of %s" % x["driver"])
+            notes.append(errx)
+            continue
+        cx = load_cases(outdirx)
+        off = len(cases)
+        # class numbers of extra runs are shifted so that histograms stay separable
+        pairs += [(i + off, c) for i, c in px]
+        classes += [k + 100000 * (xi + 1) for k in kx]
+        cases += cx
+        total_eval += len(cx)
 
     kf = known_findings(pid)
     viol = [(i, c) for i, c in pairs if c in (2, 3) or (c >= 100 and (c - 100) not in kf)]
